@@ -238,6 +238,10 @@ func WorkerBatch(t *testing.T) {
 			fmt.Fprintf(os.Stderr, "LSSIM-RUN profile=%s seed=%d index=%d run_seed=%d\n", prof.Name, seed, index, runSeed)
 		}
 		r := RunOne(t, prof, NewTape(runSeed), runSeed, index)
+		if dir := os.Getenv("LSSIM_DUMP_LOGS"); dir != "" {
+			// diagnosis only
+			_ = os.WriteFile(fmt.Sprintf("%s/%s-%d.log", dir, prof.Name, index), []byte(strings.Join(r.log, "\n")), 0o644)
+		}
 		l := outLine{Type: "run", Run: r}
 		if samples > 0 && r.Nontrivial && len(r.Violations) == 0 {
 			samples--
